@@ -298,12 +298,33 @@ def r_slots(ctx):
 # R-SENSE and R-CMP
 # ---------------------------------------------------------------------------------------------------
 def constraint_senses(repo):
+    """The kinds the Constraint constructor accepts, found by unrolling it (sa/miniint.py, assertions evaluated) on the two documented kinds and on
+    a few near misses ('Equality', '', '<=', 'eq', 'ineq'): -> (set of accepted kinds, constructor node)"""
+    from ..miniint import IndexInterp, SymObj
     init = repo.method("Constraint", "__init__")
-    for a in ast.walk(init):
-        if isinstance(a, ast.Assert) and isinstance(a.test, ast.Compare) and isinstance(a.test.ops[0], ast.In) \
-                and isinstance(a.test.comparators[0], (ast.Set, ast.List, ast.Tuple)):
-            return {e.value for e in a.test.comparators[0].elts if isinstance(e, ast.Constant)}, a
-    raise AnalysisError("Constraint.__init__: assertion on the accepted senses not found")
+    ps = params_of(init)
+    accepted = set()
+    for kind in ("equality", "inequality", "Equality", "INEQUALITY", "", "<=", "eq", "ineq", "equality "):
+        env = {ps[1]: SymObj("Expression", label="e"), ps[2]: kind, "Constraint.counter": 0, "Expression": ("type", "Expression"), "str": ("type", "str")}
+        for p0 in ps[3:]:
+            env[p0] = None
+        it = IndexInterp(env, check_asserts=True)
+        try:
+            it.run(init.body)
+            accepted.add(kind)
+        except AnalysisError as e:
+            if "raises" not in str(e):
+                raise AnalysisError("Constraint.__init__ not interpretable: %s" % e)
+    return accepted, init
+
+
+def r_constraint_kinds(ctx, rule="R-OPTIONS"):
+    """The kind of a Constraint is an option value like any other: only the two documented kinds are accepted by the constructor."""
+    repo = ctx.repo
+    senses, init = constraint_senses(repo)
+    ok = senses == {"equality", "inequality"}
+    ctx.ob(rule, "Constraint.__init__::accepted kinds", ok, "accepts exactly 'equality' and 'inequality'" if ok else
+           "accepts %s: a constraint of an undocumented kind is created (and later treated as one of the two) instead of being rejected" % sorted(senses), loc(init, init))
 
 
 def r_sense(ctx):
@@ -312,7 +333,8 @@ def r_sense(ctx):
     senses, a = constraint_senses(repo)
     init = repo.method("Constraint", "__init__")
     ok = senses == {"equality", "inequality"}
-    ctx.ob("R-SENSE", "Constraint.__init__::accepted senses", ok, "accepts exactly 'equality' and 'inequality'" if ok else "accepts %s" % sorted(senses), loc(init, a))
+    ctx.ob("R-SENSE", "Constraint.__init__::accepted senses", ok, "accepts exactly 'equality' and 'inequality'" if ok else
+           "accepts %s: a constraint of another kind is created instead of being rejected" % sorted(senses), loc(init, a))
     stores = [s for s in flow.stmts_of(init, ast.Assign) if any(dotted(t) == "self.equality_or_inequality" for t in s.targets)]
     oks = len(stores) == 1 and dotted(stores[0].value) == params_of(init)[2] and \
         any(dotted(t) == "self.expression" and dotted(s.value) == params_of(init)[1] for s in flow.stmts_of(init, ast.Assign) for t in s.targets)
@@ -981,8 +1003,16 @@ def r_mainvars(ctx):
     sv = be.methods["solve"]
     vals = {dotted(s.targets[0]): src(s.value) for s in flow.stmts_of(sv, ast.Assign)}
     ok = vals.get("self.optimal_G") == "self.G.value" and vals.get("self.optimal_F") == "self.F.value"
-    ctx.ob("R-SOLVEVALS", "CvxpyWrapper.solve", ok, "the primal solution is read from the main variables" if ok else
-           "optimal_G / optimal_F are read from %s / %s" % (vals.get("self.optimal_G"), vals.get("self.optimal_F")), loc(sv, sv))
+    why = "optimal_G / optimal_F are read from %s / %s" % (vals.get("self.optimal_G"), vals.get("self.optimal_F"))
+    if ok:
+        # ... at every solve: each of the two is stored exactly once on every completing path (a value kept from an earlier solve would pair the
+        # Gram matrix of one problem with the function values of another)
+        for attr in ("self.optimal_G", "self.optimal_F"):
+            pc = flow.path_counts(sv.body, lambda n0: False, lambda st, attr=attr: isinstance(st, ast.Assign) and any(dotted(t) == attr for t in st.targets))
+            normal = pc.get("next", set()) | pc.get("return", set())
+            if normal != {1}:
+                ok, why = False, "`%s` is stored %s times depending on the path: after a second solve (dimension reduction, re-solve) it can still hold the solution of the first" % (attr, sorted(normal))
+    ctx.ob("R-SOLVEVALS", "CvxpyWrapper.solve", ok, "the primal solution is read from the main variables at every solve" if ok else why, loc(sv, sv))
     rets = [r for r in ast.walk(sv) if isinstance(r, ast.Return)]
     okr = len(rets) == 1 and isinstance(rets[0].value, ast.Tuple) and len(rets[0].value.elts) == 3 and src(rets[0].value.elts[2]) == "self.objective.value"
     ctx.ob("R-SOLVEVALS", "CvxpyWrapper.solve::value of the original objective", okr,
